@@ -364,6 +364,20 @@ void PeerRecv(Peer &p, size_t upTo)
   }
 }
 
+// the peer's half of the TLS handshake, without moving application data
+void PeerHandshake(Peer &p)
+{
+#ifdef SOCKPUPPET_WITH_TLS
+  if(p.dead || !p.tlsSock) return;
+  auto *t = static_cast<SocketTlsImpl *>(p.tlsSock->impl.get());
+  if(SSL_is_init_finished(t->ssl.get())) return;
+  t->remainingTime = Duration(0);
+  try { (void)SSL_do_handshake(t->ssl.get()); } catch(std::exception const &) {}
+#else
+  (void)p;
+#endif
+}
+
 void PeerKill(Peer &p, std::string const &kind)
 {
   vos::log_note("peer kill " + kind + " sent=" + std::to_string(p.sentOff) + " read=" + std::to_string(p.got.size()));
@@ -573,6 +587,7 @@ void RunCase(std::vector<std::string> const &ops)
             else if(x->tls && ((peer.sentOff < pw || peer.got.size() < r) || (hsfull && !xInit())) && (a == 0 || hsfull) && x->got.empty()) (void)XRecv(*x, 0);
           }
           Drain();
+          PeerHandshake(peer);
           PeerSend(peer, pw);
           PeerRecv(peer, r);
           if(x->sentOff >= a && peer.sentOff >= pw && peer.got.size() >= r && futsDone && (!hsfull || xInit())) break;
